@@ -15,6 +15,11 @@
 //!         are printed as the nominal value and counted as indeterminate when
 //!         the measured one differs.
 //! mode 3  Interval::tick arithmetic read back exactly from the runtime's wheel.
+//! mode 4  Runtime::poll_with / Runtime::poll called by hand on a real Runtime
+//!         (slot clock as in mode 1), with and without an I/O completion waiting
+//!         for the driver: which sleeps are woken by each turn.
+//! mode 5  Interval starting in the future whose first tick is dropped several
+//!         times: the deadline of each attempt, read back from the wheel.
 use std::{
     collections::HashMap,
     future::Future,
@@ -30,7 +35,7 @@ use std::{
 };
 
 use compio_driver::{DriverType, ProactorBuilder};
-use compio_io::{AsyncRead, AsyncReadExt, AsyncWriteExt};
+use compio_io::{AsyncRead, AsyncReadAt, AsyncReadExt, AsyncWriteAt, AsyncWriteExt};
 use compio_runtime::{
     Runtime, RuntimeBuilder,
     time::{
@@ -392,6 +397,8 @@ enum BStep {
     Join(usize),
     SelectDrop(u64, u64),
     Yields(u64),
+    Busy(u64, u64),
+    IntervalCancel(u64, u64, u64, u64),
 }
 
 fn decode_b(c: &mut Case) -> Result<(u64, Vec<BStep>), BadCase> {
@@ -453,6 +460,24 @@ fn decode_b(c: &mut Case) -> Result<(u64, Vec<BStep>), BadCase> {
                 }
                 BStep::Yields(k)
             }
+            10 => {
+                let d = slot(c.take()?)?;
+                let k = c.take()?;
+                if k > 3 {
+                    return Err(BadCase);
+                }
+                BStep::Busy(d, k)
+            }
+            11 => {
+                let s = slot(c.take()?)?;
+                let p = c.take()?;
+                let cn = c.take()?;
+                let n = c.take()?;
+                if p > 16 || cn > 4 || n > 5 {
+                    return Err(BadCase);
+                }
+                BStep::IntervalCancel(s, p, cn, n)
+            }
             _ => return Err(BadCase),
         };
         steps.push(st);
@@ -478,6 +503,40 @@ fn judge(done: Instant, deadline: Instant, asked: Instant) -> u64 {
     }
 }
 
+/// a delivered tick: start + k * period, the first one start itself, advancing,
+/// not handed out before its time
+fn tick_code(
+    t: Instant,
+    start: Instant,
+    period: Duration,
+    prev: Option<Instant>,
+    done: Instant,
+    asked: Instant,
+) -> u64 {
+    let aligned = t >= start && (t - start).as_nanos() % period.as_nanos() == 0;
+    if !aligned {
+        75
+    } else if prev.is_none() && t != start {
+        80
+    } else if prev.is_some_and(|p| t <= p) {
+        76
+    } else {
+        judge(done, t, asked)
+    }
+}
+
+/// an operation that completes at submission: write to /dev/null or read of /dev/zero
+async fn inline_op(null: &compio_fs::File, zero: &compio_fs::File, read: bool) {
+    if read {
+        let (n, _) = zero.read_at(Vec::with_capacity(8), 0).await.unwrap();
+        assert_eq!(n, 8);
+    } else {
+        let mut f = null;
+        let (n, _) = f.write_at(vec![7u8; 8], 0).await.unwrap();
+        assert_eq!(n, 8);
+    }
+}
+
 async fn program_b(steps: Vec<BStep>, indet: Arc<AtomicU64>) -> Vec<u64> {
     let mut out = vec![0u64];
     let base = Instant::now() + Duration::from_millis(3);
@@ -487,6 +546,14 @@ async fn program_b(steps: Vec<BStep>, indet: Arc<AtomicU64>) -> Vec<u64> {
     let mut sleepers: Vec<(u64, Instant, Option<compio_runtime::JoinHandle<Instant>>)> = Vec::new();
     let mut helpers: Vec<std::thread::JoinHandle<()>> = Vec::new();
     let mut keep_pipes = Vec::new();
+    let needs_files = steps.iter().any(|s| matches!(s, BStep::Busy(..)));
+    let files = if needs_files {
+        let null = compio_fs::OpenOptions::new().write(true).open("/dev/null").await.unwrap();
+        let zero = compio_fs::File::open("/dev/zero").await.unwrap();
+        Some((null, zero))
+    } else {
+        None
+    };
     for st in steps {
         match st {
             BStep::SpawnSleep(d) => {
@@ -599,15 +666,7 @@ async fn program_b(steps: Vec<BStep>, indet: Arc<AtomicU64>) -> Vec<u64> {
                     let prev_none = prev.is_none();
                     let t = iv.tick().await;
                     let done = Instant::now();
-                    let aligned = t >= start && (t - start).as_nanos() % period.as_nanos() == 0;
-                    let code = if !aligned {
-                        75
-                    } else if prev.is_some_and(|p| t <= p) {
-                        76
-                    } else {
-                        judge(done, t, asked)
-                    };
-                    out.push(code);
+                    out.push(tick_code(t, start, period, prev, done, asked));
                     prev = Some(t);
                     // nominal lower bound of the time this tick completes at
                     cur = if prev_none { cur.max(4 * s) } else { 4 * s + ((cur - 4 * s) / p + 1) * p };
@@ -642,6 +701,115 @@ async fn program_b(steps: Vec<BStep>, indet: Arc<AtomicU64>) -> Vec<u64> {
                 drop(e);
                 out.push(judge(done, da.min(db), asked));
                 cur = cur.max(4 * a.min(b));
+            }
+            BStep::Busy(d, kind) => {
+                let dl = slot(d);
+                let asked = Instant::now();
+                let guard = dl.max(asked) + WATCHDOG;
+                let (null, zero) = files.as_ref().unwrap();
+                let code = match kind {
+                    0 | 1 => {
+                        // a Timeout around a loop of operations that complete inline:
+                        // every driver poll finds a completion
+                        let busy = async {
+                            while Instant::now() < guard {
+                                inline_op(null, zero, kind == 1).await;
+                            }
+                        };
+                        let res = timeout_at(dl, busy).await;
+                        let done = Instant::now();
+                        if res.is_ok() {
+                            72
+                        } else if done < dl {
+                            71
+                        } else {
+                            judge(done, dl, asked)
+                        }
+                    }
+                    2 => {
+                        // the main task sleeps next to a task that keeps the driver busy
+                        let stop = std::rc::Rc::new(std::cell::Cell::new(false));
+                        let (stop2, null2, zero2) = (stop.clone(), null.clone(), zero.clone());
+                        let h = compio_runtime::spawn(async move {
+                            while !stop2.get() && Instant::now() < guard {
+                                inline_op(&null2, &zero2, false).await;
+                            }
+                        });
+                        sleep_until(dl).await;
+                        let done = Instant::now();
+                        stop.set(true);
+                        let _ = h.await;
+                        judge(done, dl, asked)
+                    }
+                    _ => {
+                        // a spawned sleeper; the main task keeps the driver busy
+                        let at = std::rc::Rc::new(std::cell::Cell::new(None));
+                        let at2 = at.clone();
+                        let h = compio_runtime::spawn(async move {
+                            sleep_until(dl).await;
+                            at2.set(Some(Instant::now()));
+                        });
+                        while at.get().is_none() && Instant::now() < guard {
+                            inline_op(null, zero, true).await;
+                        }
+                        match at.get() {
+                            Some(done) => {
+                                let _ = h.await;
+                                judge(done, dl, asked)
+                            }
+                            None => 72,
+                        }
+                    }
+                };
+                out.push(code);
+                cur = cur.max(4 * d);
+            }
+            BStep::IntervalCancel(s, p, cn, n) => {
+                let start = slot(s);
+                let period = Duration::from_millis(p * Q_MS);
+                let mut iv = interval_at(start, period);
+                let mut ft = false; // nominal "first tick delivered"
+                let mut prev: Option<Instant> = None;
+                for _ in 0..cn {
+                    let tdl = if !ft { 4 * s } else { 4 * s + ((cur - 4 * s) / p + 1) * p };
+                    let cq = cur + 1;
+                    let nominal_ok = tdl <= cq;
+                    let cancel_at = base + Duration::from_millis(cq * Q_MS);
+                    let asked = Instant::now();
+                    let res = timeout_at(cancel_at, iv.tick()).await;
+                    let done = Instant::now();
+                    let check = match res {
+                        Ok(t) => {
+                            let c = tick_code(t, start, period, prev, done, asked);
+                            prev = Some(t);
+                            c
+                        }
+                        Err(_) => {
+                            if done < cancel_at { 71 } else { 1 }
+                        }
+                    };
+                    if check != 1 {
+                        out.push(check);
+                    } else {
+                        if res.is_ok() != nominal_ok {
+                            indet.fetch_add(1, Ordering::SeqCst);
+                        }
+                        out.push(if nominal_ok { 0 } else { 1 });
+                    }
+                    cur = if tdl <= cur { cur } else { tdl.min(cq) };
+                    if nominal_ok {
+                        ft = true;
+                    }
+                }
+                for _ in 0..n {
+                    let asked = Instant::now();
+                    let t = iv.tick().await;
+                    let done = Instant::now();
+                    out.push(tick_code(t, start, period, prev, done, asked));
+                    prev = Some(t);
+                    cur = if !ft { cur.max(4 * s) } else { 4 * s + ((cur - 4 * s) / p + 1) * p };
+                    ft = true;
+                }
             }
             BStep::Yields(k) => {
                 let hs: Vec<_> = (0..k)
@@ -796,6 +964,233 @@ fn run_i(c: &mut Case) -> Result<Vec<u64>, BadCase> {
 }
 
 // ---------------------------------------------------------------------------
+// mode 4: one turn of the loop (Runtime::poll_with / Runtime::poll) by hand
+
+#[derive(Clone, Copy)]
+enum LStep {
+    Sleep(u64, u64),
+    Turn(u64, bool, bool),
+    Drop(u64, usize),
+}
+
+fn decode_l(c: &mut Case) -> Result<(u64, Vec<LStep>), BadCase> {
+    let drv = c.take()?;
+    if drv > 1 {
+        return Err(BadCase);
+    }
+    let n = c.take()? as usize;
+    let mut steps = Vec::new();
+    let mut made = 0usize;
+    let mut last_t = 0u64;
+    for _ in 0..n {
+        let op = c.take()?;
+        let t = c.take()?;
+        if t < last_t || t > MAX_T {
+            return Err(BadCase);
+        }
+        last_t = t;
+        steps.push(match op {
+            1 => {
+                let d = c.take()?;
+                if d > MAX_D || made >= 16 {
+                    return Err(BadCase);
+                }
+                made += 1;
+                LStep::Sleep(t, d)
+            }
+            2 => {
+                let ans = c.take()?;
+                let rem = c.take()?;
+                if ans > 1 || rem > 1 || (rem == 0 && ans == 0) {
+                    return Err(BadCase);
+                }
+                LStep::Turn(t, ans == 1, rem == 1)
+            }
+            3 => {
+                let i = c.take()? as usize;
+                if i >= made {
+                    return Err(BadCase);
+                }
+                LStep::Drop(t, i)
+            }
+            _ => return Err(BadCase),
+        });
+    }
+    if c.i != c.v.len() {
+        return Err(BadCase);
+    }
+    Ok((drv, steps))
+}
+
+fn attempt_l(drv: u64, steps: &[LStep], s: Duration) -> Option<Vec<u64>> {
+    let mut pb = ProactorBuilder::new();
+    pb.driver_type(if drv == 1 { DriverType::Poll } else { DriverType::IoUring });
+    let rt = RuntimeBuilder::new().with_proactor(pb).build().unwrap();
+    let null = rt.block_on(async {
+        compio_fs::OpenOptions::new().write(true).open("/dev/null").await.unwrap()
+    });
+    let log = Arc::new(Mutex::new(Vec::new()));
+    let wakers: Vec<Waker> = (0..N_WAKERS)
+        .map(|id| Waker::from(Arc::new(IdWaker { id, log: log.clone() })))
+        .collect();
+    let mut sleeps: Vec<Option<Pin<Box<compio_runtime::time::Sleep>>>> = Vec::new();
+    let mut out = vec![0u64];
+    let sn = s.as_nanos();
+    let base = Instant::now() + Duration::from_micros(100);
+    let at = |k: u64| base + Duration::from_nanos((sn * k as u128) as u64);
+    let enter = |t: u64| -> bool {
+        let lo = at(t) + s / 8;
+        let hi = at(t + 1) - s / 2;
+        loop {
+            let now = Instant::now();
+            if now >= hi {
+                return false;
+            }
+            if now >= lo {
+                return true;
+            }
+            std::hint::spin_loop();
+        }
+    };
+    let inside = |t: u64| Instant::now() < at(t + 1);
+    for st in steps {
+        match *st {
+            LStep::Sleep(t, d) => {
+                if !enter(t) {
+                    return None;
+                }
+                let id = sleeps.len();
+                let (fut, ready) = rt.enter(|| {
+                    let mut f = Box::pin(sleep_until(at(d)));
+                    let mut cx = Context::from_waker(&wakers[id]);
+                    let r = f.as_mut().poll(&mut cx).is_ready();
+                    (f, r)
+                });
+                out.push(ready as u64);
+                sleeps.push(Some(fut));
+                if !inside(t) {
+                    return None;
+                }
+            }
+            LStep::Turn(t, ans, rem) => {
+                if !enter(t) {
+                    return None;
+                }
+                let noop = Waker::noop();
+                // an operation that completes at submission waits for the driver
+                let mut op = if ans {
+                    let f = null.clone();
+                    let mut fut: Pin<Box<dyn Future<Output = usize>>> = Box::pin(async move {
+                        let mut f = &f;
+                        f.write_at(vec![1u8], 0).await.0.unwrap()
+                    });
+                    let pending = rt.enter(|| fut.as_mut().poll(&mut Context::from_waker(noop)).is_pending());
+                    if pending { Some(fut) } else { None }
+                } else {
+                    None
+                };
+                log.lock().unwrap().clear();
+                // poll() blocks until something completes or the nearest deadline: only
+                // call it when a completion is really on its way
+                if rem || op.is_none() {
+                    rt.poll_with(Some(Duration::ZERO));
+                } else {
+                    rt.poll();
+                }
+                // let the operation finish (polling driver: it runs on the thread pool)
+                let mut tries = 0;
+                while let Some(fut) = op.as_mut() {
+                    if rt.enter(|| fut.as_mut().poll(&mut Context::from_waker(noop)).is_ready()) {
+                        op = None;
+                    } else {
+                        tries += 1;
+                        if tries > 2000 {
+                            return None;
+                        }
+                        rt.poll_with(Some(Duration::from_micros(50)));
+                    }
+                }
+                {
+                    let l = log.lock().unwrap();
+                    out.push(l.len() as u64);
+                    out.extend(l.iter().copied());
+                }
+                if !inside(t) {
+                    return None;
+                }
+            }
+            LStep::Drop(_, i) => {
+                sleeps[i] = None;
+                out.push(0);
+            }
+        }
+    }
+    let es = runtime_entries(&rt);
+    out.push(es.len() as u64);
+    for (dl, _, _) in es {
+        let off = (dl - base).as_nanos();
+        out.push(if off % sn == 0 { (off / sn) as u64 } else { 77777 });
+    }
+    drop(sleeps);
+    Some(out)
+}
+
+fn run_l(c: &mut Case) -> Result<Vec<u64>, BadCase> {
+    let (drv, steps) = decode_l(c)?;
+    let mut s = Duration::from_millis(1);
+    for attempt in 0..10 {
+        if let Some(out) = attempt_l(drv, &steps, s) {
+            if attempt > 0 {
+                side(format!("A retries {attempt}"));
+            }
+            return Ok(out);
+        }
+        s *= 2;
+    }
+    side("A gave-up 1".to_string());
+    Ok(vec![3])
+}
+
+// ---------------------------------------------------------------------------
+// mode 5: first tick of an Interval dropped several times
+
+fn run_f(c: &mut Case) -> Result<Vec<u64>, BadCase> {
+    let (lead_s, lead_ns, per_s, per_ns, cn) = (c.take()?, c.take()?, c.take()?, c.take()?, c.take()?);
+    if c.i != c.v.len()
+        || lead_ns >= 1_000_000_000
+        || per_ns >= 1_000_000_000
+        || lead_s < 1
+        || lead_s > 50_000_000_000
+        || per_s > 50_000_000_000
+        || cn > 5
+    {
+        return Err(BadCase);
+    }
+    let lead = Duration::new(lead_s, lead_ns as u32);
+    let period = Duration::new(per_s, per_ns as u32);
+    let rt = Runtime::new().unwrap();
+    let out = rt.block_on(async move {
+        let start = Instant::now() + lead;
+        let mut iv = interval_at(start, period);
+        let mut out = vec![0u64];
+        for _ in 0..cn {
+            let mut f = Box::pin(iv.tick());
+            match poll_once(&mut f).await {
+                Poll::Ready(_) => out.push(3),
+                Poll::Pending => {
+                    let es = Runtime::with_current(|rt| runtime_entries(rt));
+                    out.push((es.len() == 1 && es[0].0 == start) as u64);
+                }
+            }
+            drop(f);
+        }
+        out.push((timer_count() == 0) as u64);
+        out
+    });
+    Ok(out)
+}
+
+// ---------------------------------------------------------------------------
 
 fn run(case: &[u64]) -> Result<Vec<u64>, BadCase> {
     let mut c = Case::new(case);
@@ -803,6 +1198,8 @@ fn run(case: &[u64]) -> Result<Vec<u64>, BadCase> {
         1 => run_a(&mut c),
         2 => run_b(case),
         3 => run_i(&mut c),
+        4 => run_l(&mut c),
+        5 => run_f(&mut c),
         _ => Err(BadCase),
     }
 }
